@@ -56,6 +56,11 @@ pub fn rec(label: &'static str, vals: &[f64]) {
     }
 }
 
+/// Converts any float to `f64` (NaN if the conversion fails).
+pub fn f<T: Float>(x: T) -> f64 {
+    num_traits::ToPrimitive::to_f64(&x).unwrap_or(f64::NAN)
+}
+
 /// Taps a scalar of any float type.
 pub fn tap_scalar<T: Float>(label: &'static str, v: T) -> T {
     if !tap_active() {
